@@ -190,44 +190,48 @@ def r5_3(ctx):
         ctx.ok("R5.3", where(fi), "forced path (check_deleted=False) never consults sequences['Deleted']")
     # with check_deleted True the deletion list's reaching definitions derive from Deleted
     from .c01 import reaching_defs
+    from .common import pm_of
 
+    pm = pm_of(p, fi)
     loop = [n for n in body_walk(fi.node) if isinstance(n, (ast.For, ast.AsyncFor)) and any(call_name(c) == "aremove" for c in calls_in(n))]
     ctx.require(loop and isinstance(loop[0].iter, ast.Name), "expunge(): removal loop over a named list not found")
     var = loop[0].iter.id
+    # bind the pattern variables of the function's shape first
+    shape = [
+        ("msg_keys_to_delete = self.sequences['Deleted']", "expunge candidates = sequences['Deleted']", "expunge candidates are no longer exactly the \\Deleted sequence"),
+        ("to_delete = sorted(msg_keys_to_delete, reverse=True)", "deletion list = the \\Deleted keys, highest first", "the deletion list is no longer the \\Deleted keys"),
+        ("uids_to_delete = [self.uids[self._msg_key_to_idx[x]] for x in to_delete]", "UIDs of the candidates taken position by position", "candidate UIDs are no longer read off the same positions as the candidate keys"),
+    ]
+    for pat, okmsg, badmsg in shape:
+        if pm.has(pat):
+            ctx.ok("R5.3", where(fi), okmsg)
+        else:
+            ctx.bad("R5.3", fi.module, fi.qual, pat, badmsg, fi.node.lineno)
+    restr_pats = [
+        "if uid_msg_set is not None:\n    ...\n    for uid in uid_msg_set:\n        if uid in uids_to_delete:\n            new_uids_to_delete.append(uid)\n            pos = uids_to_delete.index(uid)\n            new_to_delete.append(to_delete[pos])\n    to_delete = sorted(new_to_delete, reverse=True)\n    ...",
+        "if uid_msg_set:\n    ...\n    for uid in uid_msg_set:\n        if uid in uids_to_delete:\n            new_uids_to_delete.append(uid)\n            pos = uids_to_delete.index(uid)\n            new_to_delete.append(to_delete[pos])\n    to_delete = sorted(new_to_delete, reverse=True)\n    ...",
+    ]
+    if any(pm.has(x) for x in restr_pats):
+        ctx.ok("R5.3", where(fi), "UID EXPUNGE: restricted to uids in both uid_msg_set and the \\Deleted set (key taken at the uid's position)")
+    else:
+        ctx.bad("R5.3", fi.module, fi.qual, "if uid_msg_set is not None: for uid in uid_msg_set: if uid in uids_to_delete: ...", "UID restriction of EXPUNGE no longer intersects the given set with the \\Deleted messages", fi.node.lineno)
+    forced_pat = "for uid in uid_msg_set:\n    if uid in self._uid_to_idx:\n        idx = self._uid_to_idx[uid]\n        to_delete.append(self.msg_keys[idx])\n        uids_to_delete.append(uid)"
+    if pm.has(forced_pat):
+        ctx.ok("R5.3", where(fi), "forced path keeps only UIDs present in this mailbox and takes the key at the UID's position")
+    else:
+        ctx.bad("R5.3", fi.module, fi.qual, "if uid in self._uid_to_idx: to_delete.append(self.msg_keys[idx])", "forced expunge no longer filters unknown UIDs / maps each UID to the key at its position", fi.node.lineno)
+    # every reaching definition of the removal loop's list is one of the shapes bound above
     ln = [n for n in g.nodes_for(loop[0])]
     defs = reaching_defs(g, ln[0], var)
     ctx.paths_explored += len(defs)
-    allowed_src = {"msg_keys_to_delete", "new_to_delete", var}
+    allowed_src = {pm.name(v) for v in ("msg_keys_to_delete", "new_to_delete", "to_delete")} | {var, "self"}
     for d in defs:
         a = g.nodes[d].ast
         srcs = names_in(a.value) - {"sorted", "reverse", "True"}
-        if srcs <= allowed_src | {"self"}:
+        if srcs <= allowed_src:
             ctx.ok("R5.3", where(fi), f"deletion list def @{g.nodes[d].line}: {norm(a, 60)}")
         else:
             ctx.bad("R5.3", fi.module, fi.qual, norm(a), "deletion list defined from something other than the \\Deleted keys / the UID-restricted subset", g.nodes[d].line)
-    # msg_keys_to_delete = self.sequences["Deleted"]
-    mk = [s for s in body_walk(fi.node) if isinstance(s, ast.Assign) and any(isinstance(t, ast.Name) and t.id == "msg_keys_to_delete" for t in s.targets)]
-    if mk and all(norm(s.value) == "self.sequences['Deleted']" for s in mk):
-        ctx.ok("R5.3", where(fi), "expunge candidates = sequences['Deleted']")
-    else:
-        ctx.bad("R5.3", fi.module, fi.qual, "msg_keys_to_delete = self.sequences['Deleted']", "expunge candidates are no longer exactly the \\Deleted sequence", fi.node.lineno)
-    # uid restriction: new_to_delete only gets elements whose uid is in both uid_msg_set and uids_to_delete
-    restr = [s for s in body_walk(fi.node) if isinstance(s, ast.If) and norm(s.test) in ("uid_msg_set", "uid_msg_set is not None")]
-    if restr:
-        body = restr[0]
-        okr = any(isinstance(f, ast.For) and norm(f.iter) == "uid_msg_set" and any(isinstance(i, ast.If) and norm(i.test) == "uid in uids_to_delete" for i in f.body) for f in body.body)
-        if okr:
-            ctx.ok("R5.3", where(fi), "UID EXPUNGE: restricted to uids in both uid_msg_set and the \\Deleted set")
-        else:
-            ctx.bad("R5.3", fi.module, fi.qual, "if uid_msg_set: ... if uid in uids_to_delete", "UID restriction of EXPUNGE no longer intersects the given set with the \\Deleted messages", body.lineno)
-    else:
-        ctx.bad("R5.3", fi.module, fi.qual, "if uid_msg_set:", "UID EXPUNGE restriction vanished", fi.node.lineno)
-    # forced path: only UIDs present in the mailbox
-    forced = [s for s in body_walk(fi.node) if isinstance(s, ast.If) and norm(s.test) == "uid in self._uid_to_idx"]
-    if forced:
-        ctx.ok("R5.3", where(fi), "forced path keeps only UIDs present in this mailbox", nontrivial=False)
-    else:
-        ctx.bad("R5.3", fi.module, fi.qual, "if uid in self._uid_to_idx", "forced expunge no longer filters unknown UIDs", fi.node.lineno)
     # who may remove
     n_sites = 0
     for f2 in p.functions.values():
